@@ -739,3 +739,85 @@ Proof.
   change (long_body (long_form name)) with (Some name). cbv iota.
   rewrite (split_eq_plain name He), Hh, Hv, Hf. reflexivity.
 Qed.
+
+(* a flag or a single-valued option that the readable prefix already holds is a usage error where it is repeated - in
+   either form, whatever its value, whatever follows (a later --help included) *)
+Lemma push_repeated : forall a v acc, single (a_kind a) = true -> has_field acc (a_field a) = true -> push a v acc = None.
+Proof.
+  intros a v acc Hs Hh. unfold push. destruct (vp_accepts (a_vp a) v); cbn; [|reflexivity]. rewrite Hs, Hh. reflexivity.
+Qed.
+Lemma repeated_option_rejected : forall spec group items out name a post,
+  items_effect spec [] items = Some out -> plain_name name = true -> find_long spec name = Some a ->
+  single (a_kind a) = true -> has_field out (a_field a) = true ->
+  parse spec group (render items ++ long_form name :: post) = PUsage /\
+  (forall v, parse spec group (render items ++ long_eq_form name v :: post) = PUsage).
+Proof.
+  intros spec group items out name a post H Hp Hf Hs Hh.
+  destruct (plain_name_facts _ Hp) as [He [Hhl Hv]].
+  pose proof (find_long_nonempty _ _ _ Hf) as Hne.
+  split.
+  - unfold parse. rewrite (scan_items spec items [] out H). cbn [scan]. rewrite (long_form_not_dashes _ Hne).
+    change (long_body (long_form name)) with (Some name). cbv iota.
+    rewrite (split_eq_plain name He), Hhl, Hv, Hf.
+    destruct (a_kind a) eqn:Ek; try discriminate Hs.
+    + rewrite (push_repeated a "" out); [reflexivity| rewrite Ek; reflexivity | exact Hh].
+    + destruct post as [|v post']; [reflexivity|]. destruct (looks_like_option v); [reflexivity|].
+      rewrite (push_repeated a v out); [reflexivity| rewrite Ek; reflexivity | exact Hh].
+  - intro v. unfold parse. rewrite (scan_items spec items [] out H). cbn [scan]. rewrite (long_eq_form_not_dashes name v).
+    change (long_body (long_eq_form name v)) with (Some (str_app name (SCons "=" v))). cbv iota.
+    rewrite (split_eq_joined name v He), Hhl, Hv, Hf.
+    destruct (a_kind a) eqn:Ek; try discriminate Hs; [reflexivity|].
+    rewrite (push_repeated a v out); [reflexivity| rewrite Ek; reflexivity | exact Hh].
+Qed.
+
+(* a value its option's value parser refuses is a usage error where it stands, in either form *)
+Lemma push_invalid : forall a v acc, vp_accepts (a_vp a) v = false -> push a v acc = None.
+Proof. intros a v acc H. unfold push. rewrite H. reflexivity. Qed.
+Lemma invalid_value_rejected : forall spec group items out name a v post,
+  items_effect spec [] items = Some out -> plain_name name = true -> find_long spec name = Some a ->
+  a_kind a <> KFlag -> vp_accepts (a_vp a) v = false ->
+  parse spec group (render items ++ long_eq_form name v :: post) = PUsage /\
+  parse spec group (render items ++ long_form name :: v :: post) = PUsage.
+Proof.
+  intros spec group items out name a v post H Hp Hf Hk Hv.
+  destruct (plain_name_facts _ Hp) as [He [Hhl Hvl]].
+  pose proof (find_long_nonempty _ _ _ Hf) as Hne.
+  split; unfold parse; rewrite (scan_items spec items [] out H); cbn [scan].
+  - rewrite (long_eq_form_not_dashes name v).
+    change (long_body (long_eq_form name v)) with (Some (str_app name (SCons "=" v))). cbv iota.
+    rewrite (split_eq_joined name v He), Hhl, Hvl, Hf.
+    destruct (a_kind a); try contradiction; rewrite (push_invalid a v out Hv); reflexivity.
+  - rewrite (long_form_not_dashes _ Hne).
+    change (long_body (long_form name)) with (Some name). cbv iota.
+    rewrite (split_eq_plain name He), Hhl, Hvl, Hf.
+    destruct (a_kind a); try contradiction; destruct (looks_like_option v); try reflexivity;
+      rewrite (push_invalid a v out Hv); reflexivity.
+Qed.
+
+(* the unchanged tool: --features takes exactly its three documented values, --verbose exactly its six; every other spelling
+   (another case, cut short, a blank, ..) is a usage error wherever it stands *)
+Lemma cli_features_exact : forall v, vp_accepts (vp_of_field "features") v = true <-> In v ["stable-basic"; "stable-all"; "unstable-all"].
+Proof.
+  intro v. change (vp_of_field "features") with (VPossible ["stable-basic"; "stable-all"; "unstable-all"] false). split.
+  - intro H. apply possible_exact_in in H. tauto.
+  - intro H. cbn in H. repeat (destruct H as [H|H]; [subst v; reflexivity|]). destruct H.
+Qed.
+Lemma cli_verbose_exact : forall v, vp_accepts (vp_of_field "verbose") v = true <-> In v ["off"; "error"; "warn"; "info"; "debug"; "trace"].
+Proof.
+  intro v. change (vp_of_field "verbose") with (VPossible ["off"; "error"; "warn"; "info"; "debug"; "trace"] false). split.
+  - intro H. apply possible_exact_in in H. tauto.
+  - intro H. cbn in H. repeat (destruct H as [H|H]; [subst v; reflexivity|]). destruct H.
+Qed.
+Lemma cli_near_miss_rejected : forall items out v post, items_effect CLI [] items = Some out ->
+  ~ In v ["stable-basic"; "stable-all"; "unstable-all"] ->
+  parse CLI GROUP (render items ++ long_eq_form "features" v :: post) = PUsage /\
+  parse CLI GROUP (render items ++ "--features" :: v :: post) = PUsage.
+Proof.
+  intros items out v post H Hn.
+  assert (Hv : vp_accepts (vp_of_field "features") v = false).
+  { destruct (vp_accepts (vp_of_field "features") v) eqn:E; [|reflexivity]. apply cli_features_exact in E. contradiction. }
+  assert (Hf : exists a, find_long CLI "features" = Some a /\ a_kind a <> KFlag /\ a_vp a = vp_of_field "features")
+    by (eexists; split; [reflexivity|split; [discriminate|reflexivity]]).
+  destruct Hf as [a [Hf [Hk Ha]]]. rewrite <- Ha in Hv.
+  exact (invalid_value_rejected CLI GROUP items out "features" a v post H eq_refl Hf Hk Hv).
+Qed.
